@@ -35,7 +35,8 @@ RULE = ("per configuration (frame, partitioning, npartitions, temp-dir mode, sto
         "STALE, CRASH} applicable to O_k; layer 2 repeats one fault r times on the same operation; layers 1 and 2 "
         "of all configurations are run in one seeded, stratified permutation (dealt round-robin from "
         "the (configuration, layer, kind) strata: any budget reaches every kind in every "
-        "configuration, a long enough one is the full enumeration); layer 3 "
+        "configuration, a long enough one is the full enumeration); layer 5 puts one fault, addressed by (operation, path), at every storage-changing "
+        "operation under a seeded multi-worker schedule; layer 3 "
         "samples pairs/triples; layer 4 samples faults under random multi-worker schedules. A run is "
         "non-trivial when at least one fault fired; distinct = distinct (configuration, fault plan) "
         "event-log digests.")
@@ -185,7 +186,30 @@ def _enumerated(tier, base_seed):
                     out.append({"layer": 2, "cfg": cfg, "plan": {},
                                 "repeat": [[op, rel, kind, r]], "sim": REF_SIM,
                                 "seed": mix(base_seed, 7_000_000 + ci * 100000 + k * 10 + r)})
-    ENUM_SIZE.update({"layer1": n1, "layer2": len(out) - n1})
+    n2 = len(out)
+    # layer 5: one fault addressed by (operation, path) - not by position, which a different
+    # task order would shift - at every storage-changing operation, while the tasks of the run
+    # are spread over several workers: what the other tasks do during the retry wait
+    for ci, cfg in enumerate(cfgs):
+        if cfg["tempdir"] == "ext_uuid":
+            continue                      # those paths carry the run's uuid
+        ops, _, k_call = baseline(cfg)
+        seen = set()
+        for (k, op, rel) in ops:
+            if k > k_call or (op, rel) in seen or op not in simfs.EFFECT_OPS:
+                continue
+            seen.add((op, rel))
+            for kind in ("EIO", "AFTER"):
+                if not simfs.applicable(kind, op):
+                    continue
+                seed = mix(base_seed, 9_000_000 + ci * 100000 + k * 10 + (kind == "AFTER"))
+                r5 = random.Random(seed)
+                out.append({"layer": 5, "cfg": cfg, "plan": {}, "repeat": [[op, rel, kind, 1]],
+                            "sim": {"workers": r5.choice((2, 3, 4, 8)),
+                                    "strategy": r5.choice(("random", "random", "pct")),
+                                    "switch_p": r5.choice((0.3, 0.7)), "stall": False},
+                            "seed": seed})
+    ENUM_SIZE.update({"layer1": n1, "layer2": n2 - n1, "layer5": len(out) - n2})
     # stratified: shuffle inside each (configuration, layer, fault kind) stratum, then deal the
     # strata round-robin - rare kinds (a half-done move has a handful of positions, EIO has
     # hundreds) are all reached early, the rest of the budget goes to the large strata
